@@ -174,6 +174,12 @@ Proof.
   - cbn [fst snd]. apply nnn_refl. exact Hwf1.
 Qed.
 
+(* [injection] would normalise 1000000 + p into a match on the bits of p *)
+Ltac pair_inv E :=
+  let E1 := fresh in let E2 := fresh in
+  pose proof (f_equal fst E) as E1; pose proof (f_equal snd E) as E2; cbn [fst snd] in E1, E2; clear E;
+  match type of E1 with _ = ?x => subst x end; match type of E2 with _ = ?y => subst y end.
+
 Theorem iso_broadcast_never_nak : iso_broadcast_never_nak_stmt.
 Proof.
   unfold iso_broadcast_never_nak_stmt. intros r requester p i Hp Hreq Hi Hwf Hall.
@@ -189,9 +195,9 @@ Proof.
     destruct iso_answers_match_reference as (_ & _ & _ & _ & RI & _). rewrite RI in ER.
     destruct (c_iso_handler (r_cfg r)) as [acc|]; cbn [negb andb] in ER.
     + destruct (existsb (Z.eqb p) ref_ignore_broadcast); [rewrite andb_false_r|rewrite andb_true_r].
-      * injection ER as <- <-. split; [reflexivity|]. split; [exact Q1|exact Q2].
-      * destruct (existsb (Z.eqb p) acc); injection ER as <- <-; (split; [reflexivity|]; split; [exact Q1|exact Q2]).
-    + injection ER as <- <-. split; [reflexivity|]. split; [exact Q1|exact Q2].
+      * pair_inv ER. split; [reflexivity|]. split; [exact Q1|exact Q2].
+      * destruct (existsb (Z.eqb p) acc); pair_inv ER; (split; [reflexivity|]; split; [exact Q1|exact Q2]).
+    + pair_inv ER. split; [reflexivity|]. split; [exact Q1|exact Q2].
 Qed.
 Print Assumptions iso_broadcast_never_nak.
 
